@@ -200,8 +200,11 @@ func ParseSliceHeader(nalu []byte, spsMap map[uint32]*SPS, ppsMap map[uint32]*PP
 				if r.AccError() != nil {
 					return sh, r.AccError()
 				}
-			} else if sps.NumShortTermRefPicSets > 1 {
-				sh.ShortTermRefPicSetIdx = byte(r.Read(bits.CeilLog2(uint(sps.NumShortTermRefPicSets))))
+			} else {
+				// short_term_ref_pic_set_idx is inferred to be 0 when not present
+				if sps.NumShortTermRefPicSets > 1 {
+					sh.ShortTermRefPicSetIdx = byte(r.Read(bits.CeilLog2(uint(sps.NumShortTermRefPicSets))))
+				}
 				if int(sh.ShortTermRefPicSetIdx) >= len(sps.ShortTermRefPicSets) {
 					return sh, fmt.Errorf("short_term_ref_pic_set_idx > num_short_term_ref_pic_sets")
 				}
